@@ -120,7 +120,7 @@ pub fn pcs_extra_shapes() -> Vec<PcsShape> {
         let mats = mix
             .iter()
             .enumerate()
-            .map(|(j, &h)| MatSpec::new(h, WIDTHS[(k + j) % 3], h != 0 && k % 2 == 0))
+            .map(|(j, &h)| MatSpec::new(h, WIDTHS[(k + j) % 3], if h == 0 { k % 4 < 2 } else { k % 2 == 0 }))
             .collect();
         v.push(PcsShape { params: p, rounds: vec![mats] });
     }
